@@ -601,6 +601,68 @@ func (tb *table) runVector(w *trace.Writer, i int, v vector, random bool, r *ran
 	t.Add("End", "sig", sig)
 }
 
+// runSweep: the vector's message with every ms32 field swept over 1..20000 ms and seeded random values of the
+// whole 32-bit range; Encode.same / Decode.same hold only if every value was right (the first wrong one is named)
+func (tb *table) runSweep(w *trace.Writer, i int, v vector, r *rand.Rand, thorough bool) {
+	vals, sig := tb.instantiate(v.Ty, v.M, false, r)
+	sig += ":sweep"
+	t := w.Begin(map[string]interface{}{"i": i, "ty": v.Ty, "m": v.M, "sweep": true}, v.Ty)
+	defer t.Close()
+	t.Add("Start", "ty", v.Ty, "m", v.M, "sig", "start")
+	n := 20000
+	nr := 20000
+	if thorough {
+		n, nr = 200000, 200000
+	}
+	encOK, decOK, allOK := true, true, true
+	bad := ""
+	baseLen := 0 // the length on the wire does not depend on the duration's value
+	if real, pan := safeEncode(tb.build(v.Ty, vals, nil).Interface()); pan == nil {
+		baseLen = len(real)
+	}
+	try := func(ms uint64) {
+		for _, d := range tb.Table[v.Ty] {
+			if d.K == "ms32" {
+				x := vals[d.F]
+				x.u = ms
+				vals[d.F] = x
+			}
+		}
+		canon := -1
+		if d, _, ok := tb.truncPrefix(v.Ty, vals); ok {
+			canon = len(vals[d.F].b)
+			if canon > d.Trunc {
+				canon = d.Trunc
+			}
+		}
+		wn := tb.wireNormal(v.Ty, vals, canon)
+		expected := tb.encode(v.Ty, wn)
+		real, pan := safeEncode(tb.build(v.Ty, vals, nil).Interface())
+		if pan != nil || !bytes.Equal(real, expected) {
+			if encOK {
+				bad = fmt.Sprintf("encode %d ms", ms)
+			}
+			encOK = false
+		}
+		got, pan := safeDecode(expected)
+		if pan != nil || !equalMsg(got, tb.build(v.Ty, wn, nil)) {
+			if decOK && bad == "" {
+				bad = fmt.Sprintf("decode %d ms", ms)
+			}
+			decOK, allOK = false, false
+		}
+	}
+	for ms := uint64(1); ms <= uint64(n) && encOK && decOK; ms++ {
+		try(ms)
+	}
+	for j := 0; j < nr && encOK && decOK; j++ {
+		try(uint64(r.Int63n(1 << 32)))
+	}
+	t.Add("Encode", "same", encOK, "len", baseLen, "cut", -1, "detail", bad, "sig", sig)
+	t.Add("Decode", "same", decOK, "all", allOK, "detail", bad, "sig", sig)
+	t.Add("End", "sig", sig)
+}
+
 // ---------------------------------------------------------------- the registration round
 
 // One trace per type (an unregistered type must not hide the others behind one rejection) plus a
@@ -664,9 +726,18 @@ func main() {
 		common.Fatal("no layout table among the scenarios")
 	}
 	idx := 0
+	firstVec := map[string]vector{}
 	for _, raw := range raws {
 		i := idx
 		idx++
+		if !bytes.Contains(raw, []byte(`"table":{`)) {
+			var v0 vector
+			if json.Unmarshal(raw, &v0) == nil {
+				if _, seen := firstVec[v0.Ty]; !seen {
+					firstVec[v0.Ty] = v0
+				}
+			}
+		}
 		if !o.Want(i) {
 			continue
 		}
@@ -678,7 +749,32 @@ func main() {
 		if err := json.Unmarshal(raw, &v); err != nil {
 			common.Fatal("scenario %d: %v", i, err)
 		}
+		if _, seen := firstVec[v.Ty]; !seen {
+			firstVec[v.Ty] = v
+		}
 		tb.runVector(w, i, v, false, o.Rand(int64(i)))
+	}
+	// the data dimension of fixed-width numeric fields that are computed, not copied (durations): one vector per
+	// type, its Encode/Decode events speak for a whole sweep of values
+	sweepTypes := make([]string, 0)
+	for ty, ds := range tb.Table {
+		for _, d := range ds {
+			if d.K == "ms32" {
+				sweepTypes = append(sweepTypes, ty)
+				break
+			}
+		}
+	}
+	sort.Strings(sweepTypes)
+	for _, ty := range sweepTypes {
+		i := idx
+		idx++
+		if !o.Want(i) {
+			continue
+		}
+		if v, ok := firstVec[ty]; ok {
+			tb.runSweep(w, i, v, o.Rand(int64(2_000_000+i)), o.Thorough())
+		}
 	}
 	// seeded random vectors beyond TLC's classes
 	per := 40
